@@ -147,7 +147,13 @@ def c14_cases(tier, rng):
         else:
             for cb in combos_dfs:
                 yield apply(n, e, cb)
-    rnd = random_inputs(rng, 2000 if tier == "quick" else 30000, 4, 30, density=1.6)
+    # five nodes: the smallest size at which a search tree can be rooted at a node that a later tree reaches
+    five = [(n, e) for n, e, r in K.family("E55") if r["n"] == 5 and r["acyc"] == 0]
+    rng.shuffle(five)
+    for (n, e), cb in rotate(five[:5000 if tier == "quick" else len(five)], combos_dfs, 1, rng):
+        yield apply(n, e, cb)
+    rnd = random_inputs(rng, 2000 if tier == "quick" else 30000, 4, 30, density=1.6) + \
+        random_inputs(rng, 2500 if tier == "quick" else 30000, 5, 9, density=1.5, loop_rate=0.02)
     for (n, e), cb in rotate(rnd, combos_all, 1, rng):
         yield apply(n, e, cb)
 
@@ -280,7 +286,7 @@ RULES = {
     "C04": "E(4,4)/E(4,5) x breakers x layerers x the four size-aware positioners x four width/height patterns (zero sizes, one very wide node, odd widths) x NodeSpacing {0,1,10}, plus random multigraphs up to 30 nodes; non-trivial = >= 2 components or two nodes in one band",
     "C05": "E(4,4)/E(4,5) x all positioners (incl. the four forced B&K layouts) x {straight, polyline, ortho} x size patterns, plus random multigraphs up to 20 nodes; non-trivial = a reversed edge, a long edge or >= 2 components",
     "C06": "E(4,4)/E(4,5) x size-aware positioners x {straight, polyline, ortho} x heterogeneous widths AND heights x virtual-node output, plus random multigraphs up to 20 nodes; non-trivial = a routed edge with more than two points",
-    "C14": "every cyclic list of E(4,4)/E(4,5) x DepthFirst and every acyclic list x {Greedy, DepthFirst}, x both layerers, plus random multigraphs up to 30 nodes; non-trivial = >= 1 reversed edge or a parallel/antiparallel pair",
+    "C14": "every cyclic list of E(4,4)/E(4,5) x DepthFirst and every acyclic list x {Greedy, DepthFirst}, x both layerers, 5-node cyclic lists of E(5,5) (5000 sampled in quick, all 5-node ones in thorough), plus random multigraphs of 5-9 and up to 30 nodes; non-trivial = >= 1 reversed edge or a parallel/antiparallel pair",
     "C16": "every connected list of E(4,4)/E(4,5) x {VAlign, PackRight} x width patterns x NodeSpacing {0,1,10} with helper nodes in the output, plus random connected multigraphs up to 30 nodes; non-trivial = >= 2 bands and a band with >= 2 nodes",
 }
 
@@ -321,6 +327,14 @@ def run_unary(prop, tier, seed, replay):
                 res = engine.merge_results(res, res2)
         else:
             res = engine.run_layout_cases(work, driver, [prop], cs)
-        return engine.report(prop, res, known, tier, seed, {"exhaustive_family": fam_E(tier)}, ASSUME, t0, RULES[prop])
+        models = []
+        if not replay:
+            if prop == "C02":
+                models.append(engine.t1_model(work, tier))
+            if prop in ("C02", "C03", "C05", "C06", "C10", "C11", "C12", "C14"):
+                pd = engine.pipeline_diag(work, driver, cs, limit=400 if tier == "quick" else 4000)
+                if pd:
+                    models.append(pd)
+        return engine.report(prop, res, known, tier, seed, {"exhaustive_family": fam_E(tier)}, ASSUME, t0, RULES[prop], level_models=models)
     finally:
         work.cleanup()
